@@ -108,6 +108,12 @@ func (f *TermFactory) weaken(t *Term, pos bool, memo map[[2]int]*Term) *Term {
 
 // NativeText renders goal i negated in the native encoding, with extra assertions and a get-value request.
 func (s *Script) NativeText(i int, extra []*Term, values []*Term) string {
+	return s.NativeTextOpt(i, extra, values, false)
+}
+
+// NativeTextOpt with dropQ leaves out every quantified axiom (a weaker set of assumptions: candidate models may
+// violate an axiom; they only count once replayed on the real code).
+func (s *Script) NativeTextOpt(i int, extra []*Term, values []*Term, dropQ bool) string {
 	f := s.f
 	var sb strings.Builder
 	sb.WriteString("(set-option :produce-models true)\n")
@@ -120,11 +126,21 @@ func (s *Script) NativeText(i int, extra []*Term, values []*Term) string {
 		fmt.Fprintf(&sb, "(declare-const |%s| %s)\n", c.name, c.sort)
 	}
 	for _, a := range f.axioms {
+		if dropQ && strings.Contains(a, "forall") {
+			continue
+		}
 		sb.WriteString(a)
 		sb.WriteString("\n")
 	}
 	roots := append([]*Term{}, f.ranges...)
-	roots = append(roots, s.Extra...)
+	nExtra := 0
+	for _, ax := range s.Extra {
+		if dropQ && (ax.op == "forall" || ax.bound) {
+			continue
+		}
+		roots = append(roots, ax)
+		nExtra++
+	}
 	roots = append(roots, extra...)
 	neg := f.weaken(f.Not(s.Goals[i]), true, map[[2]int]*Term{})
 	roots = append(roots, neg)
@@ -132,7 +148,7 @@ func (s *Script) NativeText(i int, extra []*Term, values []*Term) string {
 	p := &Printer{f: f, defined: map[int]string{}, out: &strings.Builder{}, refs: map[int]int{}}
 	txt := p.Define(roots...)
 	sb.WriteString(p.out.String())
-	na := len(f.ranges) + len(s.Extra) + len(extra)
+	na := len(f.ranges) + nExtra + len(extra)
 	for k := 0; k < na; k++ {
 		fmt.Fprintf(&sb, "(assert %s)\n", txt[k])
 	}
